@@ -339,6 +339,12 @@ func runCase(t pbt.TB, c Case) {
 		return
 	}
 	workdir := gripx.WorkDir()
+	// the work directory is shared by the cases of a shard: only stores that appear during
+	// this case are this case's (an earlier, cancelled case may still be cleaning up)
+	storesBefore := map[string]bool{}
+	for _, d := range tmpStores(workdir) {
+		storesBefore[d] = true
+	}
 	baseline := quiesce.GripGoroutines()
 	ctx, cancel := context.WithCancel(context.Background())
 	defer cancel()
@@ -396,7 +402,25 @@ func runCase(t pbt.TB, c Case) {
 		}
 		pbt.Inconclusive(t, "goroutines still running after the stream closed")
 	}
-	if dirs := tmpStores(workdir); len(dirs) > 0 {
+	newStores := func() []string {
+		var out []string
+		for _, d := range tmpStores(workdir) {
+			if !storesBefore[d] {
+				out = append(out, d)
+			}
+		}
+		return out
+	}
+	dirs := newStores()
+	for wait := 0; len(dirs) > 0 && wait < 100; wait++ { // Manager.Cleanup may still be removing them
+		time.Sleep(100 * time.Millisecond)
+		dirs = newStores()
+	}
+	if len(dirs) > 0 {
+		if len(left) > 0 {
+			pbt.Inconclusive(t, "temporary stores present while goroutines of the run are still running")
+			return
+		}
 		pbt.Discrepancy(t, c, "tmpstore-left:"+shapeSig(c.Steps), "%s left temporary stores behind: %v", model.TravString(c.Steps), dirs)
 	}
 }
